@@ -93,6 +93,10 @@ type scope struct {
 	wg          sync.WaitGroup
 	root        bool
 	testScope   bool
+
+	// reportMu serialises the periodic report passes of a root scope with
+	// its Close.
+	reportMu sync.Mutex
 }
 
 // ScopeOptions is a set of options to construct a scope.
@@ -263,6 +267,12 @@ func (s *scope) reportLoop(interval time.Duration) {
 }
 
 func (s *scope) reportLoopRun() {
+	// n.b. Close() takes the same lock before it sets the closed flag, so a
+	//      pass that is in flight when Close() is called ends with the flag
+	//      still clear and no pass starts once Close() has the lock.
+	s.reportMu.Lock()
+	defer s.reportMu.Unlock()
+
 	if s.closed.Load() {
 		return
 	}
@@ -519,6 +529,14 @@ func (s *scope) Snapshot() Snapshot {
 }
 
 func (s *scope) Close() error {
+	if s.root {
+		// n.b. Wait for the report loop to end, after the lock is released
+		//      (a tick may be blocked on it). Defer order is important (LIFO).
+		defer s.wg.Wait()
+		s.reportMu.Lock()
+		defer s.reportMu.Unlock()
+	}
+
 	// n.b. Once this flag is set, the next scope report will remove it from
 	//      the registry and clear its metrics.
 	if !s.closed.CAS(false, true) {
